@@ -87,6 +87,71 @@ def underflow_err(p):
     return None
 
 
+def _values_slice(e):
+    """`values` seen as a slice: self.values, &self.values[..], self.values.as_slice(), *self.values (Deref)"""
+    e = peel(e, ("Vec::as_slice", "Deref::deref", "AsRef::as_ref", "Borrow::borrow"))
+    return is_values(e)
+
+
+def from_end_offset(e, k):
+    """distance from the end of `values` (1 = top) that the component expression `e` of topK addresses, or None"""
+    e0 = e
+    if match(e, TryOk(Call("Stack::top", Through(Param(1)), nargs=1))):
+        return 1
+    x = peel(e, ())
+    m = x
+    # Option-returning accessors behind `?` / ok_or
+    for wrap in (TryOk(Call(("Option::ok_or_else", "Option::ok_or"), Bind("o", ANY))),):
+        b = {}
+        if match(e, wrap, b):
+            m = peel(b["o"], ())
+            break
+    if callee_is(m, "[T]::last", "Vec::last") and _values_slice(m[3][0]):
+        return 1
+    if callee_is(m, "[T]::get") and _values_slice(m[3][0]):
+        idx = peel(m[3][1], ())
+        base = TryOk(Call(("Option::ok_or_else", "Option::ok_or"), Call("usize::checked_sub", is_size, Const(k), nargs=2)))
+        if match(idx, base):
+            return k
+        if idx[0] == "field" and idx[1][0] == "binop":   # (a + c).0 of AddWithOverflow
+            idx = idx[1]
+        if idx[0] == "binop" and idx[1] in ("Add", "AddWithOverflow") and match(idx[2], base) and idx[3][0] == "const" and isinstance(idx[3][3], int) and 0 <= idx[3][3] < k:
+            return k - idx[3][3]
+        return None
+    # slice pattern: &values[-j]
+    while x[0] in ("ref", "deref"):
+        x = x[1]
+    if x[0] == "index" and x[2][0] == "const" and isinstance(x[2][3], int) and x[2][3] < 0 and _values_slice(x[1]):
+        return -x[2][3]
+    return None
+
+
+def len_lt_k(cond, val, k):
+    """path condition (cond == val) that establishes len(values) < k"""
+    truth = val != 0 if not isinstance(val, tuple) else True
+    if isinstance(val, tuple):      # ('not', (0,)) = true
+        truth = True
+    e = cond
+    neg = False
+    while e[0] == "unop" and e[1] == "Not":
+        e = e[2]
+        neg = not neg
+    if neg:
+        truth = not truth
+    if e[0] != "binop":
+        return False
+    op, a, b = e[1], e[2], e[3]
+
+    def is_len(z):
+        z = peel(z, ())
+        return is_size(z) or (z[0] == "len" and _values_slice(z[1]))
+    if is_len(a) and b[0] == "const" and b[3] == k:
+        return (op == "Lt" and truth) or (op == "Ge" and not truth)
+    if is_len(b) and a[0] == "const" and a[3] == k:
+        return (op == "Gt" and truth) or (op == "Le" and not truth)
+    return False
+
+
 def grows(p):
     return [c for c in p.calls() if callee_is(c, "Vec::push", "Extend::extend", "Vec::extend", "Vec::insert", "Vec::append", "Vec::extend_from_slice", "Vec::resize")]
 
@@ -222,6 +287,48 @@ def check(ctx):
               bad_detail="writers of max_stack_size: %s" % sorted(w_max))
     ctx.check(all(own(x) for x in w_val) and len(w_val) >= 4, "R04.2", "values-mutated-only-in-Stack-impls", "%d functions: %s" % (len(w_val), sorted(x.split("::")[-1] for x in w_val)), None,
               bad_detail="functions outside Stack's impls touching `values` mutably: %s" % sorted(x for x in w_val if not own(x)))
+    # whole-value overwrites of an existing Stack<_> (through a reference or into a field) replace values AND
+    # max_stack_size at once: `*state.stack_mut::<T>() = Stack::default()`, mem::take/replace/swap on &mut Stack<_>
+    def _lhs_ty(fn, pl):
+        ty = fn.locals[pl["l"]]["ty"].get("s", "")
+        for e in pl["p"]:
+            if e == "deref":
+                for pre in ("&mut ", "&"):
+                    if ty.startswith(pre):
+                        ty = ty[len(pre):]
+                        break
+                else:
+                    if ty.startswith("std::boxed::Box<"):
+                        ty = ty[len("std::boxed::Box<"):-1]
+                    else:
+                        return None
+                if ty.startswith("'"):
+                    ty = ty.split(" ", 1)[-1]
+                    if ty.startswith("mut "):
+                        ty = ty[4:]
+            elif isinstance(e, dict) and "f" in e:
+                ty = e.get("ty") or ""
+            elif isinstance(e, dict) and "dc" in e:
+                continue
+            else:
+                return None
+        return ty
+    is_stack_ty = lambda t: bool(t) and (t.startswith("push::push_vm::stack::Stack<") or t.startswith("Stack<"))
+    overwrites = []
+    for fn in F.fns.values():
+        if own(fn.id):
+            continue
+        for bi, bb in enumerate(fn.blocks):
+            for st in bb["stmts"]:
+                if st["k"] == "assign" and st["lhs"]["p"] and is_stack_ty(_lhs_ty(fn, st["lhs"])):
+                    overwrites.append((fn.id, "assignment", (st.get("span") or {}).get("at")))
+            t = bb.get("term") or {}
+            if t.get("k") == "call":
+                cal = t.get("fn") or ""
+                if cal.split("::")[-1] in ("swap", "replace", "take") and "mem::" in cal and is_stack_ty(((t.get("targs") or [{}])[0]).get("s", "")):
+                    overwrites.append((fn.id, cal.split("::")[-1], (t.get("span") or {}).get("at")))
+    ctx.check(not overwrites, "R04.2", "no-whole-Stack-overwrite-outside-Stack-impls", "0 assignments / mem::take|replace|swap on an existing Stack<_> in %d functions" % len(F.fns), None,
+              bad_detail="an existing Stack<_> is replaced as a whole (its max_stack_size is overwritten with it, so the configured bound is lost): %s" % "; ".join("%s in %s at %s" % (k, f_, a) for f_, k, a in overwrites))
     ok_ctors = all(own(x) or "as std::clone::Clone>::clone" in x for x in ctors)
     ctx.check(ok_ctors and any("Default>::default" in x for x in ctors), "R04.2", "constructed-only-by-default/clone", str(sorted(x[-60:] for x in ctors)))
     f = ctx.fn(S + "set_max_stack_size")
@@ -286,38 +393,41 @@ def check(ctx):
     for name in ("top", "top2", "top3", "size", "is_empty", "is_full", "max_stack_size"):
         f = ctx.fn(S + name)
         ctx.check(f.locals[1]["ty"].get("k") == "ref", "R04.3", name + "/takes-&self", f.locals[1]["ty"]["s"], f.at())
-    # top2 / top3 order
+    # top2 / top3 order: every component is classified by its distance from the end of `values`
+    # (1 = last element = top).  Accepted spellings: self.top()?; values.last(); values.get(len-k [+ c]) behind the
+    # checked_sub(size, k) size check; a slice pattern [.., z, y, x] (MIR ConstantIndex from the end).
     for name, k in (("top2", 2), ("top3", 3)):
         f = ctx.fn(S + name)
-        okp = [p for p in return_paths(ctx.paths(f)) if not is_err_return(p)]
-        good = len(okp) == 1
-        if good:
-            r = okp[0].ret
-            good = r[0] == "agg" and path_ends(r[2], "Result::Ok") and r[3][0][0] == "agg" and r[3][0][1] == "tuple" and len(r[3][0][3]) == k
-        if good:
-            comps = r[3][0][3]
-            base = Bind("base", TryOk(Call(("Option::ok_or_else", "Option::ok_or"), Call("usize::checked_sub", is_size, Const(k), nargs=2))))
-            b = {}
-            good = match(comps[0], TryOk(Call("Stack::top", Through(Param(1)), nargs=1)))
-            getp = lambda idx: TryOk(Call(("Option::ok_or_else", "Option::ok_or"), Call("[T]::get", is_values, idx, nargs=2)))
-            if k == 2:
-                good = good and match(comps[1], getp(base), b)
-            else:
-                plus1 = lambda e: (e[0] == "field" and e[1][0] == "binop" and e[1][1] in ("AddWithOverflow", "Add") and match(e[1][2], base, b) and e[1][3][0] == "const" and e[1][3][3] == 1) or \
-                                  (e[0] == "binop" and e[1] == "Add" and match(e[2], base, b) and e[3][0] == "const" and e[3][3] == 1)
-                good = good and match(comps[2], getp(base), b) and match(comps[1], getp(plus1), b)
-        ctx.check(good, "R04.4", "%s/(top,second%s)-indices" % (name, ",third" if k == 3 else ""), short(okp[0].ret, 4)[:200] if okp else "-", f.at(),
-                  bad_detail="%s must return (last, values[len-2]%s); extracted %s" % (name, ", values[len-3]" if k == 3 else "", short(okp[0].ret, 8) if okp else "-"))
-        for p in return_paths(ctx.paths(f)):
-            if is_err_return(p) and callee_is(p.ret, "FromResidual::from_residual"):
-                pass
+        allp = return_paths(ctx.paths(f))
+        okp = [p for p in allp if not is_err_return(p)]
+        good = len(okp) >= 1
+        offs = None
+        for q in okp:
+            r = q.ret
+            shape = r[0] == "agg" and path_ends(r[2], "Result::Ok") and r[3][0][0] == "agg" and r[3][0][1] == "tuple" and len(r[3][0][3]) == k
+            if not shape:
+                good = False
+                break
+            offs = [from_end_offset(c, k) for c in r[3][0][3]]
+            good = good and offs == list(range(1, k + 1))
+        ctx.check(good, "R04.4", "%s/(top,second%s)-indices" % (name, ",third" if k == 3 else ""), ("offsets from the end %s: " % offs) + (short(okp[0].ret, 4)[:200] if okp else "-"), f.at(),
+                  bad_detail="%s must return (last, values[len-2]%s); extracted offsets from the end %s in %s" % (name, ", values[len-3]" if k == 3 else "", offs, short(okp[0].ret, 8) if okp else "-"))
         # Underflow payloads of the size check
         clos = [x for p in ctx.paths(f) for c in p.calls() if callee_is(c, "Option::ok_or_else") for x in [c[3][1]] if x[0] == "agg" and x[1] == "closure" and callee_is(c[3][0], "usize::checked_sub")]
         okc = bool(clos)
         for cl in clos[:1]:
             cps = closure_paths(ctx, cl)
             okc = bool(cps) and len(cps) == 1 and match(cps[0].ret, Agg("StackError::Underflow", Const(k), lambda e: callee_is(peel(e, ()), "Stack::size", "Vec::len")))
-        ctx.check(okc, "R04.3", "%s/too-few->Underflow{%d,size}" % (name, k), "size check closure", f.at())
+        if not clos:
+            # explicit form: an error return whose path established len < k and whose payload is Underflow{k, size}
+            errs = [p for p in allp if is_err_return(p) and not any(callee_is(c, "Stack::top") for c in p.calls())]
+            okc = bool(errs)
+            for p in errs:
+                u = underflow_err(p)
+                lt = any(len_lt_k(c[0], c[1], k) for c in p.conds)
+                okc = okc and lt and u is not None and match(u, Agg("StackError::Underflow", Const(k), lambda e: is_size(e)))
+        ctx.check(okc, "R04.3", "%s/too-few->Underflow{%d,size}" % (name, k), "size check", f.at(),
+                  bad_detail="%s must report Underflow{num_requested: %d, num_present: size()} exactly when fewer than %d elements are present" % (name, k, k))
     for name, pat in (("size", lambda e: callee_is(e, "Vec::len") and is_values(e[3][0])), ("is_empty", lambda e: callee_is(e, "Vec::is_empty") and is_values(e[3][0])), ("max_stack_size", is_max)):
         f = ctx.fn(S + name)
         ps = return_paths(ctx.paths(f))
